@@ -135,6 +135,14 @@ func (s *Schema) initialize(db *DB, o Object) (err error) {
 		s.ObjectIndex = newIndex(s.Fields)
 	}
 
+	// asynchronous writes settings must not be shared with the schema
+	// given by the caller, which may be used for several objects
+	if s.AsyncWrites != nil {
+		async := *s.AsyncWrites
+		async.routineStarted = false
+		s.AsyncWrites = &async
+	}
+
 	return
 }
 
@@ -210,8 +218,15 @@ func (s *Schema) update(from *Schema) (err error) {
 		return
 	}
 
+	// a flusher already running for this schema keeps on running
+	started := s.AsyncWrites != nil && s.AsyncWrites.routineStarted
+
 	s.Cache = from.Cache
 	s.AsyncWrites = from.AsyncWrites
+
+	if s.AsyncWrites != nil {
+		s.AsyncWrites.routineStarted = started
+	}
 
 	return
 }
